@@ -16,6 +16,8 @@ struct Fns {
     /// (self type ident or trait-for-type key, fn name) -> (normalised body, file, line)
     map: BTreeMap<(String, String), (String, String, usize)>,
     structs: BTreeMap<String, (String, String, usize)>,
+    /// free functions by name
+    free: BTreeMap<String, (String, String, usize)>,
 }
 
 /// every token separated by one space, delimiters included (`f ( & x )`, `a :: b`, `x . y ( )`)
@@ -115,6 +117,13 @@ impl<'a, 'ast> Visit<'ast> for V<'a> {
                         }
                     }
                 }
+            }
+            Item::Fn(f) => {
+                let line = f.sig.ident.span().start().line;
+                self.fns.free.insert(
+                    f.sig.ident.to_string(),
+                    (format!("{} {}", norm(&f.sig), norm(&f.block)), self.file.clone(), line),
+                );
             }
             Item::Struct(s) => {
                 let line = s.ident.span().start().line;
@@ -522,12 +531,21 @@ fn main() {
         None => o.put("finishedBeforeStopped", "false", ""),
     }
     // ---- liveness queries
-    let peek_only = |body: &str, neg: bool| -> Option<bool> {
-        // `{ self . running . peek ( ) . is_some ( ) }` (stopped) / `is_none` (running)
+    // peekOnly : `self . running . peek ( ) . is_some ( )` (resp. is_none)
+    // truthful : `[!] <path> latch_resolved ( & self . running )` where the free fn `latch_resolved`
+    //            tests is_terminated ( ) || peek ( ) . is_some ( ) || clone ( ) . now_or_never ( ) . is_some ( )
+    let helper_ok = fns.free.get("latch_resolved").map(|k| {
+        let b = &k.0;
+        b.contains("running . is_terminated ( ) ||") && b.contains("running . peek ( ) . is_some ( ) ||")
+            && b.contains("running . clone ( ) . now_or_never ( ) . is_some ( )")
+    }).unwrap_or(false);
+    let classify = |body: &str, neg: bool| -> Option<bool> {
         let b = body.split('{').nth(1).unwrap_or("").trim().trim_end_matches('}').trim().to_string();
         if b == format!("self . running . peek ( ) . {} ( )", if neg { "is_none" } else { "is_some" }) {
             Some(true)
-        } else if b.contains("now_or_never") || b.contains("poll_unpin") || b.contains("is_terminated") {
+        } else if helper_ok
+            && (b == format!("{}crate :: context :: latch_resolved ( & self . running )", if neg { "! " } else { "" }))
+        {
             Some(false)
         } else {
             None
@@ -541,7 +559,7 @@ fn main() {
         match q {
             Some(k) => {
                 where_ = at(k);
-                match peek_only(&k.0, neg) {
+                match classify(&k.0, neg) {
                     Some(true) => all_truth = false,
                     Some(false) => all_peek = false,
                     None => {
